@@ -89,8 +89,14 @@ impl PhoneticSuggestion {
                     let key = &middle[..(middle.len() - suffix_key.len())];
                     if let Some(cache) = self.cache.get(key) {
                         for base in cache {
-                            let base_rmc = base.to_string().chars().last().unwrap(); // Right most character.
-                            let suffix_lmc = suffix.chars().next().unwrap(); // Left most character.
+                            // An empty item (from an empty auto correct entry) has nothing to join with.
+                            let (base_rmc, suffix_lmc) = match (
+                                base.to_string().chars().last(), // Right most character.
+                                suffix.chars().next(),           // Left most character.
+                            ) {
+                                (Some(rmc), Some(lmc)) => (rmc, lmc),
+                                _ => continue,
+                            };
                             let mut word = String::with_capacity(middle.len() * 3);
                             word.push_str(base.to_string());
                             match base_rmc {
@@ -265,8 +271,11 @@ impl PhoneticSuggestion {
                     let key = &string.word()[..len - test.len()];
 
                     if let Some(base) = selections.get(key) {
-                        let rmc = base.chars().last().unwrap();
-                        let suffix_lmc = suffix.chars().next().unwrap();
+                        // An empty selection (from a hand edited file) has nothing to join with.
+                        let (rmc, suffix_lmc) = match (base.chars().last(), suffix.chars().next()) {
+                            (Some(rmc), Some(lmc)) => (rmc, lmc),
+                            _ => continue,
+                        };
                         selected.push_str(base);
 
                         match rmc {
